@@ -152,10 +152,14 @@ def _same_exact(a, b):
 
 
 def run_case(case, ctx):
-    import pyspike
-    from pyspike.isi_lengths import default_thresh
     ctx.set_backend(case["compiled"])
     sts = ps.trains(case)
+    ps.judge_twice(case, ctx, sts, _judge)
+
+
+def _judge(case, ctx, sts):
+    import pyspike
+    from pyspike.isi_lengths import default_thresh
     trs, T0, T1 = ps.fr_trains(case)
     m1, m2 = case["m1"], case["m2"]
     ri = bool(case["ri"])
